@@ -698,6 +698,67 @@ pub fn parent_c18(scn: &dyn Scenario, tier: Tier, seed: u64, bins: &[(String, St
     0
 }
 
+/// `rngsim selftest [ID...]`: replay determinism, proven on a sample: every scenario's first N run
+/// indices are executed twice, in 16 worker processes and in 3, and the per-run event-log digests
+/// are compared (different process, different neighbours, different order).
+pub fn selftest(scns: Vec<Box<dyn Scenario>>, seed: u64) -> i32 {
+    let exe = std::env::current_exe().expect("current_exe");
+    let mut bad = 0u64;
+    let mut total = 0u64;
+    for scn in &scns {
+        let id = scn.id();
+        let n: u64 = match id {
+            "C19" => 400,
+            "C13" | "C09" => 2_000,
+            _ => 4_000,
+        };
+        let n = env_u64("VERIF_SELFTEST_RUNS", n);
+        let mut maps: Vec<BTreeMap<u64, u64>> = Vec::new();
+        for nw in [16u64, 3] {
+            let (outs, errs) = spawn_workers(&exe, id, Tier::Quick, seed, nw, n, 3600, true);
+            for e in errs {
+                eprintln!("HARNESS-ERROR: {} nw={}: {}", id, nw, e);
+                bad += 1;
+            }
+            let mut m = BTreeMap::new();
+            for o in &outs {
+                for (i, d) in &o.digests {
+                    m.insert(*i, *d);
+                }
+                for e in &o.harness_errors {
+                    eprintln!("HARNESS-ERROR: {} nw={}: {}", id, nw, e);
+                    bad += 1;
+                }
+                for f in &o.found {
+                    eprintln!("selftest: {} run {} reports violation {}", id, f.idx, f.class);
+                }
+            }
+            maps.push(m);
+        }
+        let mut mism = 0;
+        for (i, d) in &maps[0] {
+            if maps[1].get(i) != Some(d) {
+                mism += 1;
+                if mism <= 3 {
+                    eprintln!("selftest: {} run {} digest differs between 16 and 3 workers", id, i);
+                }
+            }
+        }
+        if maps[0].len() != maps[1].len() {
+            mism += 1;
+        }
+        total += maps[0].len() as u64;
+        bad += mism;
+        println!("selftest {}: {} runs compared (16 vs 3 worker processes), {} mismatches", id, maps[0].len(), mism);
+    }
+    println!("selftest: {} runs compared, {} problems", total, bad);
+    if bad == 0 {
+        0
+    } else {
+        2
+    }
+}
+
 /// helper for scenarios
 pub fn viol(class: &str, key: impl Into<String>, detail: impl Into<String>) -> RunEnd {
     RunEnd::Violation(Violation::new(class, key, detail))
